@@ -87,6 +87,58 @@ def find_function(mod: str, qualname: str):
     return node, src, path
 
 
+def _module_level_function(mod: str, name: str, follow_imports: bool = True):
+    try:
+        _, tree, _ = load_module(mod)
+    except OSError:
+        return None
+    for node in tree.body:
+        if isinstance(node, (ast.FunctionDef, ast.AsyncFunctionDef)) and node.name == name:
+            return node
+    if follow_imports:
+        pkg = mod.rsplit(".", 1)[0]
+        for node in tree.body:
+            if isinstance(node, ast.ImportFrom) and node.level == 1 and node.module and any((a.asname or a.name) == name for a in node.names):
+                real = next(a.name for a in node.names if (a.asname or a.name) == name)
+                return _module_level_function(f"{pkg}.{node.module}", real, follow_imports=False)
+    return None
+
+
+def _make_resolver(mod: str, helpers):
+    cache = {}
+
+    def resolver(name):
+        if name not in cache:
+            node = _module_level_function(mod, name)
+            cache[name] = Closure(node, helpers, name) if node is not None else _module_level_literal(mod, name)
+        return cache[name]
+    return resolver
+
+
+def _module_level_literal(mod: str, name: str, follow_imports: bool = True):
+    """A module-level `name = <literal>` (tables of strings / numbers) of the unit's module or of the sibling module a helper was taken from."""
+    try:
+        _, tree, _ = load_module(mod)
+    except OSError:
+        return None
+    for node in tree.body:
+        tgt = node.targets[0] if isinstance(node, ast.Assign) and len(node.targets) == 1 else (node.target if isinstance(node, ast.AnnAssign) else None)
+        if isinstance(tgt, ast.Name) and tgt.id == name and getattr(node, "value", None) is not None:
+            try:
+                return ast.literal_eval(node.value)
+            except (ValueError, SyntaxError):
+                return None
+    if follow_imports:
+        import glob as _glob
+        for path in sorted(_glob.glob(os.path.join(REPO, "jsonargparse", "_*.py"))):
+            m2 = "jsonargparse." + os.path.basename(path)[:-3]
+            if m2 != mod:
+                v = _module_level_literal(m2, name, follow_imports=False)
+                if v is not None:
+                    return v
+    return None
+
+
 @dataclass
 class Setup:
     """What a contract's setup() returns for one path."""
@@ -179,6 +231,7 @@ def run_unit(unit: Unit, forced: Optional[int] = None, fn_override=None) -> Unit
             interp = Interp(ctx, fn, calls=_Recording(st.calls, used), consts=st.consts, loops=st.loops, cms=_Recording(st.cms, used), hooks=st.hooks, symcall=st.symcall, drop_calls=st.drop_calls, impure=impure)
             env = Env(st.env)
             helpers = Env()  # module-level helpers see each other (and themselves: recursion)
+            interp.module_resolver = _make_resolver(mod, helpers)
             for nm, tgt in st.inline.items():
                 m2, q2 = tgt.split(":")
                 loc2 = find_function(m2, q2)
